@@ -164,3 +164,7 @@ def check(chk):
     chk.extra['checker_cmd'] = './check C23'
     if chk.count('C23.downgrade') < 25 or chk.count('C23.default') < 12:
         raise AnalysisError('C23: fewer rows than confirmed by hand')
+
+    # the policies decide on what the decoder hands them: required / alive / received must be read into the right fields
+    chk.rule('C23.fields', 'UNAVAILABLE / READ_TIMEOUT / WRITE_TIMEOUT error bodies are decoded into the field names the retry policies are called with')
+    chk.borrow('C04', {'C04.error': 'C23.fields'}, 'the downgrading policy then picks a level from swapped counts')
